@@ -46,6 +46,7 @@ struct Case {
   std::vector<SessRec> sess;
   std::vector<Sub> subs;
   int events_connected = 0, events_failed = 0;
+  uint64_t connected_t = UINT64_MAX;   // when libcoap declared the session connected (peer's CSM, or its own CSM time-out)
 } *G = nullptr;
 
 Sub *by_token(const coap_pdu_t *pdu) {
@@ -70,7 +71,7 @@ int event_handler(coap_session_t *, const coap_event_t ev) {
   char b[64];
   snprintf(b, sizeof b, "EVENT 0x%04x", (unsigned)ev);
   G->w->callback(b);
-  if (ev == COAP_EVENT_SESSION_CONNECTED) G->events_connected++;
+  if (ev == COAP_EVENT_SESSION_CONNECTED) { G->events_connected++; if (G->connected_t == UINT64_MAX) G->connected_t = G->w->now; }
   if (ev == COAP_EVENT_SESSION_FAILED || ev == COAP_EVENT_TCP_FAILED || ev == COAP_EVENT_TCP_CLOSED || ev == COAP_EVENT_SESSION_CLOSED) G->events_failed++;
   return 0;
 }
@@ -356,18 +357,21 @@ int run_tcp(Tape &t, Info *info, Case &cs, World &w, coap_context_t *ctx) {
   }
   StreamPeer *sp = cs.sess[0].speer;
   uint64_t established_at = UINT64_MAX, failed_at = UINT64_MAX;
-  if (fate == 0) w.at(w.now + delay, [&, sp]() {
+  if (fate == 0) w.at_world(w.now + delay, [&, sp]() {
     ref::Msg csm;
     csm.code = 0xE1;
     std::vector<uint8_t> b = ref::encode(csm, ref::F_TCP);
     w.stream_send(sp, b, {b.size()});
     established_at = w.now;
   });
-  else if (fate == 1) w.at(w.now + delay, [&, sp]() { w.stream_close(sp); failed_at = w.now; });
+  else if (fate == 1) w.at_world(w.now + delay, [&, sp]() { w.stream_close(sp); failed_at = w.now; });
   for (size_t i = 0; i < cs.subs.size(); i++) w.at(w.now + cs.subs[i].at, [&, i]() { submit(cs, w, cs.subs[i]); });
   // answer pings etc.: not needed; run for a bounded virtual time (a TCP session has no retransmission timers)
   bool quiet = w.run(w.now + 400000ull, 40000);
   (void)quiet;
+  // libcoap also declares the session connected when the peer's CSM does not arrive within its time-out (coap_client_delay_first():
+  // "timeout waiting for CSM response"): from then on the held messages go out
+  if (cs.connected_t < established_at) { established_at = cs.connected_t; info->label("connected-by-csm-timeout"); }
   int verdict = HELD;
   bool ok;
   std::vector<ref::Msg> msgs = split_stream(sp->rx, &ok);
@@ -386,7 +390,17 @@ int run_tcp(Tape &t, Info *info, Case &cs, World &w, coap_context_t *ctx) {
     std::vector<ref::Msg> em = split_stream(early, &ok2);
     for (auto &m : em) if (!ref::is_signaling(m.code)) { info->fail("TCP: a non-signalling message (code %u.%02u) was written before the peer's CSM arrived", m.code >> 5, m.code & 31); verdict = VIOLATION; }
   }
-  if (verdict == HELD && fate == 0) {
+  bool came_up = established_at != UINT64_MAX && established_at < failed_at;
+  if (verdict == HELD && came_up && fate == 1) {
+    // connected by libcoap's CSM time-out, closed by the peer later: what went out is a duplicate-free, order-preserving part of what was accepted
+    size_t pos = 0;
+    for (auto &tk : wire_tokens) {
+      while (pos < want_all.size() && want_all[pos] != tk) pos++;
+      if (pos == want_all.size()) { info->fail("TCP: tok=%s on the wire out of submission order or twice", hex(tk, 8).c_str()); verdict = VIOLATION; break; }
+      pos++;
+    }
+    info->label("B:tcp-up-by-timeout-then-closed");
+  } else if (verdict == HELD && came_up) {
     if (wire_tokens != want_all) {
       info->fail("TCP: after establishment %zu requests appeared on the wire, %zu were accepted (order/exactly-once violated)", wire_tokens.size(), want_all.size());
       verdict = VIOLATION;
